@@ -31,7 +31,7 @@ where
     SP: StateSpace<StateType = S> + 'static,
 {
     let tmo = match scn.timeout_ms {
-        Some(ms) => {
+        Some(ms) if !scn.keep_seed => {
             scn.params.build_secs = ms as f64 / 1000.0;
             twin.params.build_secs = scn.params.build_secs;
             // real-clock runs are not repeatable: no twin comparisons
@@ -39,13 +39,15 @@ where
             scn.params.seed = None;
             Duration::from_millis(ms)
         }
+        Some(ms) => Duration::from_millis(ms),
         None => Duration::from_secs(3600),
     };
+    let py_mode = scn.keep_seed;
     if std::env::var("OXH_TRACE").is_ok() {
         eprintln!("TRACE {id} params={:?} script={:?} world={}", scn.params, scn.script, scn.desc);
     }
     // C07: a second, identically constructed and identically driven instance
-    let twin_keys: Option<Vec<(Resp, Vec<Vec<u64>>)>> = if scn.params.seed.is_some() {
+    let twin_keys: Option<Vec<(Resp, Vec<Vec<u64>>)>> = if scn.params.seed.is_some() && !py_mode {
         log::reset();
         let outs2 = run_script(
             &twin.params,
@@ -73,7 +75,7 @@ where
         None
     };
     // C17: the same problem, seed and calls given to plain RRT
-    let rrt_paths: Option<Vec<Option<Vec<S>>>> = if scn.params.kind == PlannerKind::Star && scn.params.seed.is_some() {
+    let rrt_paths: Option<Vec<Option<Vec<S>>>> = if scn.params.kind == PlannerKind::Star && scn.params.seed.is_some() && !py_mode {
         log::reset();
         rrt_twin.params.kind = PlannerKind::Rrt;
         let o3 = run_script(
@@ -197,7 +199,9 @@ where
             });
         }
     }
-    let coq = coq_case(&scn.params, &scn.script, &starts, &lg, &pv, &outs).replace('\n', " ");
+    // very large runs (real-clock scenarios that ran long) are compared Python-vs-Rust only
+    let too_big = lg.keys.len() > 1500 || lg.interp.len() > 20000;
+    let coq = if too_big { "0".to_string() } else { coq_case(&scn.params, &scn.script, &starts, &lg, &pv, &outs).replace('\n', " ") };
     let max_nodes = outs
         .iter()
         .map(|o| o.snap.tree.len().max(o.snap.gtree.len()).max(o.snap.rm.len()))
@@ -236,6 +240,20 @@ where
         ("ticks", J::Arr(outs.iter().map(|o| J::Int(o.ticks as i128)).collect())),
         ("wall_ms", J::Arr(outs.iter().map(|o| J::Num(o.wall_ns as f64 / 1e6)).collect())),
         ("final_snapshot", outs.last().map(|o| oracle::snap_json(&o.snap)).unwrap_or(J::Null)),
+        ("py_mirror", match &scn.trace {
+            Some(t) => {
+                let t = t.lock().unwrap();
+                J::obj(vec![
+                    ("valid_trace_hash", J::Str(format!("{:016x}", t.0))),
+                    ("valid_calls", J::Int(t.1 as i128)),
+                    ("paths", J::Arr(outs.iter().map(|o| match &o.path {
+                        Some(p) => J::Arr(p.iter().map(|s| J::Arr(s.key().iter().skip(1).filter(|w| (*w >> 60) < 0xA || (*w >> 60) > 0xE || true).map(|w| J::Str(format!("{w:016x}"))).collect())).collect()),
+                        None => J::Null,
+                    }).collect())),
+                ])
+            }
+            None => J::Null,
+        }),
         ("max_nodes", J::Int(max_nodes as i128)),
         ("rejected_states", J::Int(n_rejected as i128)),
         ("valid_queries", J::Int(lg.n_valid_queries as i128)),
@@ -246,6 +264,7 @@ where
         ("u32_draws", J::Int(lg.u32_draws as i128)),
         ("inconsistent", J::Arr(lg.inconsistent.iter().map(|s| J::Str(s.clone())).collect())),
         ("nontrivial", J::Bool(nontrivial)),
+        ("no_model", J::Bool(too_big)),
         ("findings", J::Arr(findings.iter().map(|f| f.json()).collect())),
     ]);
     CaseOut {
@@ -292,6 +311,12 @@ fn run_family(family: &str, seed: u64, index: u64, flags: &str) -> CaseOut {
         "se2" => exec_case(scen::build_se2(&mut r, o), scen::build_se2(&mut r2, o), scen::build_se2(&mut r3, o), fr, &id),
         "se3" => exec_case(scen::build_se3(&mut r, o), scen::build_se3(&mut r2, o), scen::build_se3(&mut r3, o), fr, &id),
         "css" => exec_case(scen::build_css(&mut r, o), scen::build_css(&mut r2, o), scen::build_css(&mut r3, o), fr, &id),
+        "py-rv" => exec_case(scen::build_py_rv(&mut r, o), scen::build_py_rv(&mut r2, o), scen::build_py_rv(&mut r3, o), fr, &id),
+        "py-so2" => exec_case(scen::build_py_so2(&mut r, o), scen::build_py_so2(&mut r2, o), scen::build_py_so2(&mut r3, o), fr, &id),
+        "py-so3" => exec_case(scen::build_py_so3(&mut r, o), scen::build_py_so3(&mut r2, o), scen::build_py_so3(&mut r3, o), fr, &id),
+        "py-se2" => exec_case(scen::build_py_se2(&mut r, o), scen::build_py_se2(&mut r2, o), scen::build_py_se2(&mut r3, o), fr, &id),
+        "py-se3" => exec_case(scen::build_py_se3(&mut r, o), scen::build_py_se3(&mut r2, o), scen::build_py_se3(&mut r3, o), fr, &id),
+        "py-css" => exec_case(scen::build_py_css(&mut r, o), scen::build_py_css(&mut r2, o), scen::build_py_css(&mut r3, o), fr, &id),
         _ => panic!("unknown family {family}"),
     }
 }
